@@ -321,6 +321,18 @@ pub fn eval_history(env: &Env, ops: &[Op], pid: &str) -> ((u64, u64), Option<(St
                     }
                 }
             }
+            // (v) rebuilding the registry through the run-time builder merges two entries iff their definitions are identical
+            {
+                let mut b = scale_info::PortableRegistryBuilder::new();
+                let ids: Vec<u32> = portable.types.iter().map(|t| b.register_type(t.ty.clone())).collect();
+                for (i, a) in portable.types.iter().enumerate() {
+                    for (j, c) in portable.types.iter().enumerate().skip(i + 1) {
+                        if (ids[i] == ids[j]) != (a.ty == c.ty) {
+                            fail.get_or_insert(("builder-rebuild-merges-distinct".into(), format!("rebuilding through PortableRegistryBuilder gives entries {i} ({}) and {j} ({}) ids {} and {} although their definitions are {}", a.ty.path.segments.join("::"), c.ty.path.segments.join("::"), ids[i], ids[j], if a.ty == c.ty { "identical" } else { "different" })));
+                        }
+                    }
+                }
+            }
             // (ii) exactly one entry per distinct identity in the reachable closure
             let root_metas: Vec<MetaType> = all_pairs.iter().map(|p| p.0).collect();
             let want = closure(&root_metas).len();
